@@ -400,6 +400,10 @@ func c07Check(a vh.Args, o *vh.Oracle, r *vh.Result, c *c07Case, njobs int) erro
 		r.Fail("predicate", c.Op+"/hang-after-cancel", fmt.Sprintf("%s did not return within 30s (cancel at hit %d, n=%d)", c.Op, c.K, c.N), c)
 	case c.Got == "nil" && !c.Complete:
 		r.Fail("predicate", c.Op+"/nil-but-incomplete", fmt.Sprintf("%s returned nil after cancellation at hit %d (n=%d, variant %s) but the work is not complete: %s", c.Op, c.K, c.N, c.Variant, c.Detail), c)
+	case c.Fired && (c.Variant == "ok" || c.Variant == "seed-ok") && c.Got == "err" && c.Op != "untarindex" && c.Op != "untar":
+		// nothing is wrong with the input and nothing but the cancellation happened: the error must be Interrupted
+		// (UnTar/UnTarIndex excepted: the decoder may legitimately report the truncated stream first)
+		r.Fail("predicate", c.Op+"/cancel-reported-as-other-error", fmt.Sprintf("%s (n=%d) was cancelled at hit %d and returned a non-Interrupted error: %s", c.Op, c.N, c.K, c.Detail), c)
 	case !c.Fired && c.Variant == "ok" && c.Got != "nil":
 		// no cancellation reached the operation and nothing is wrong with the input: it must succeed
 		r.Fail("predicate", c.Op+"/error-without-cancel", fmt.Sprintf("%s returned %s (%s) although the context was never cancelled", c.Op, c.Got, c.Detail), c)
@@ -495,7 +499,7 @@ func runC07(a vh.Args, o *vh.Oracle, r *vh.Result) error {
 	}
 	ns := []int{1, 2, 4}
 	inputsPerOp := 2
-	maxK := 40
+	maxK := 32
 	if thorough {
 		inputsPerOp = 6
 		maxK = 400
